@@ -200,4 +200,6 @@ pub fn run(run: &Run) {
         check_case(run, "C04", "tree", s, &|s| gen_case(s, md), &oracle, &witness,
             &|c, s| { run.nontrivial(fnv(format!("{:?}", c).as_bytes())); run.count(&format!("placement:{}", PLACEMENTS[c.placement as usize])); for l in &s.labels { run.count(&format!("label:{}", l)); } if i < 6 { run.sample(witness(c)); } });
     });
+    // thorough: the same quick workload once more under the AddressSanitizer build (memory errors in the library or its dependencies)
+    if !run.quick() { crate::lanes::asan_rerun(run); }
 }
